@@ -13,7 +13,7 @@ RULE = ("exception codes 0..255 x {read, write, write-multi} x {udp-rtu, tcp} x 
         "(transport, keep-alive, command kind, code, j, delay, entry) tuples")
 ASSUMPTIONS = ["reason texts are the standard Modbus exception names (table copied from the specification into refcodec)",
                "virtual clock: 'at once' means zero virtual time between delivery of the exception frame and the return"]
-MUST = ["rejected_udp", "rejected_tcp", "after_drops", "delayed_exception", "unknown_code", "public_entry"]
+MUST = ["second_request_rejected", "rejected_after_lone_fragment", "rejected_udp", "rejected_tcp", "after_drops", "delayed_exception", "unknown_code", "public_entry"]
 EXHAUSTIVE = {"quick": True, "thorough": True}
 EPS = 1e-6
 
@@ -30,16 +30,41 @@ def scenario(transport, ka, T, R, kind, code, j, delay, entry):
             "tasks": [{"start": 0.0, "steps": [step]}]}
 
 
+def scenario_second(transport, ka, T, R, kind, code, gap, delay):
+    """request A is rejected at once; after `gap` request B (same object, connection possibly kept alive) gets its exception frame
+    `delay` after its transmission - i.e. after A's original deadline but inside B's own timeout."""
+    sc = scenario(transport, ka, T, R, kind, code, 0, delay, "protocol")
+    first = {"read": ["read", 399, 1], "write": ["write", 399, 5], "multi": ["multi", 399, "0001"]}[kind]
+    sc["by_reg"] = {399: [["exc", 2, 0.0]], 400: [["exc", code, delay]]}
+    sc["script"] = []
+    sc["tasks"] = [{"start": 0.0, "steps": [first, ["sleep", gap], sc["tasks"][0]["steps"][0]]}]
+    sc["second"] = True
+    return sc
+
+
+def scenario_fragment_first(transport, ka, T, R, code, k):
+    """transmission 1 of a read is answered by a lone fragment of k bytes (times out), transmission 2 by the exception frame."""
+    sc = scenario(transport, ka, T, R, "read", code, 1, 0.0, "protocol")
+    sc["script"] = [["frag1", k], ["exc", code, 0.0]]
+    sc["frag_first"] = k
+    return sc
+
+
 def check_run(sc, run, part: Part):
     tr = sc["transport"]
     out = []
     if run.stop:
         return [(f"C08/{tr}/hang", run.stop)]
-    rec = run.calls[0]
+    rec = [c for c in run.calls if c["step"][0] != "sleep"][-1]
     want = rc.reason(sc["code"])
     ctx = f"{sc['kind']} code={sc['code']} after {sc['j']} drops keep_alive={sc['keep_alive']} delay={sc['delay']} entry={sc['entry']}"
-    deliveries = [(i, e) for i, e in enumerate(run.events) if e[1] == "rx"]
-    txs = [(i, e) for i, e in enumerate(run.events) if e[1] == "tx"]
+    start = next(i for i, e in enumerate(run.events) if e[1] == "call" and e[2] == rec["id"])
+    deliveries = [(i, e) for i, e in enumerate(run.events) if e[1] == "rx" and i > start]
+    txs = [(i, e) for i, e in enumerate(run.events) if e[1] == "tx" and i > start]
+    if sc.get("second"):
+        ctx += " as the second request on the same object"
+    if sc.get("frag_first"):
+        ctx += f" after a lone {sc['frag_first']}-byte fragment answered transmission 1"
     if rec["outcome"] != "RequestRejectedException":
         out.append((f"C08/{tr}/not-rejected", f"{ctx}: outcome {rec['outcome']} ({rec.get('msg', '')[:60]})"))
         return out
@@ -65,6 +90,10 @@ def check_run(sc, run, part: Part):
             part.count("unknown_code")
         if sc["entry"] == "public":
             part.count("public_entry")
+        if sc.get("second"):
+            part.count("second_request_rejected")
+        if sc.get("frag_first"):
+            part.count("rejected_after_lone_fragment")
     return out
 
 
@@ -72,7 +101,7 @@ def run_case(sc, part):
     run = engine.run_scenario(sc, quiesce=False)
     part.evaluations += 1
     vs = check_run(sc, run, part)
-    part.see(repr((sc["transport"], sc["keep_alive"], sc["kind"], sc["code"], sc["j"], sc["delay"], sc["entry"])))
+    part.see(repr((sc["transport"], sc["keep_alive"], sc["kind"], sc["code"], sc["j"], sc["delay"], sc["entry"], sc.get("second"), sc.get("frag_first"))))
     for key, msg in vs:
         part.violate(key, msg, {"scenario": sc, "calls": run.calls, "events": engine.jsonable_events(run.events, 60)})
     if part.evaluations % 701 == 3:
@@ -103,6 +132,13 @@ def run_shard(spec):
             if spec["kind"] != "multi":
                 for j in (0, R):
                     run_case(scenario(spec["transport"], spec["ka"], T, R, spec["kind"], code, j, 0.0, "public"), part)
+            if code % 16 == 2 or code in (1, 3, 4, 6):
+                for gap, delay in ((0.5 * T, 0.8 * T), (0.25 * T, 0.9 * T), (0.0, 0.5 * T)):
+                    run_case(scenario_second(spec["transport"], spec["ka"], T, R, spec["kind"], code, gap, delay), part)
+                if spec["kind"] == "read":
+                    # (read of 3 registers: RTU answer = 13 bytes, Modbus/TCP answer = 15 bytes; k stays below the full frame)
+                    for k in range(5 if spec["transport"] == "udp" else 9, 13 if spec["transport"] == "udp" else 15):
+                        run_case(scenario_fragment_first(spec["transport"], spec["ka"], T, R, code, k), part)
     return part
 
 
